@@ -31,8 +31,12 @@ def build(u):
 
 
 # what a level of a stack promises about a lookup, as trait-level contract of ReadSide / FullCache
-def level_get_ensures(lookup):
+def level_get_ensures(lookup, configured):
     return [
+        ('C16:success-means-the-name-is-a-valid-key', 'r.is_ok() ==> valid_key(str_bytes(key.name))'),
+        ('C01:a-hit-holds-bytes-some-writer-supplied-for-exactly-this-key',
+         'r.is_ok() && r.unwrap().is_some() && %s ==> final(w).inodes.contains_key(r.unwrap().unwrap().ino()) '
+         '&& final(w).supplied.contains((str_bytes(key.name), final(w).inodes[r.unwrap().unwrap().ino()].content))' % configured),
         ('C02 C18:valid-on-every-exit', 'final(w).inv()'),
         ('', 'final(w).kept(*old(w)) && final(w).listed == old(w).listed && final(w).published == old(w).published'),
         ('C16:invalid-names-fail-with-invalid-input-and-touch-nothing',
@@ -99,15 +103,17 @@ pub open spec fn sharded_lookup(links: Map<PathV, InodeId>, root: PathV, n: usiz
                         '    spec fn lookup(&self, links: Map<PathV, InodeId>, key: Key) -> Option<InodeId>;\n\n'
                         '    /// Handle well-formedness (established by the constructors).\n'
                         '    spec fn level_wf(&self) -> bool;\n\n'
+                        '    /// The directories of this level are configured ones (read-write cache directories, or under a read-only root).\n'
+                        '    spec fn configured(&self, cfg: (Set<PathV>, Set<PathV>)) -> bool;\n\n'
                         '    ')
     g.add_param(W)
-    g.contract(requires=[('', 'old(w).inv() && self.level_wf()')], ensures=level_get_ensures('self.lookup(old(w).files, key)'))
+    g.contract(requires=[('', 'old(w).inv() && self.level_wf()')], ensures=level_get_ensures('self.lookup(old(w).files, key)', 'self.configured(old(w).cfg())'))
     th = t.sub(['fn touch'])
     th.add_param(W)
     th.contract(requires=[('', 'old(w).inv() && self.level_wf()')], ensures=level_touch_ensures('self.lookup(old(w).files, key)'))
 
-    for ty, lookup, wf in (('PlainCache', 'plain_lookup(links, self.spec_base(), str_bytes(key.name))', 'self.wf()'),
-                           ('ShardedCache', 'sharded_lookup(links, self.spec_root(), self.spec_n(), key)', 'self.wf()')):
+    for ty, lookup, wf, conf in (('PlainCache', 'plain_lookup(links, self.spec_base(), str_bytes(key.name))', 'self.wf()', 'cfg.0.contains(self.spec_base()) || under_ro_of(cfg.1, self.spec_base())'),
+                                 ('ShardedCache', 'sharded_lookup(links, self.spec_root(), self.spec_n(), key)', 'self.wf()', 'self.configured_cfg(cfg)')):
         im = u.item('src/readonly.rs', ['impl ReadSide for ' + ty])
         gg = u.under_contract(im.sub(['fn get']), ['C13', 'C15', 'C11', 'C05', 'C18', 'C19', 'C16', 'C06', 'C20'])
         gg.air = r'readonly::impl&%\d+::get'
@@ -115,7 +121,8 @@ pub open spec fn sharded_lookup(links: Map<PathV, InodeId>, root: PathV, n: usiz
         gg.insert_before_tok(gg.fn_kw(),
                              'open spec fn lookup(&self, links: Map<PathV, InodeId>, key: Key) -> Option<InodeId> { %s }\n\n'
                              '    open spec fn level_wf(&self) -> bool { %s }\n\n'
-                             '    ' % (lookup, wf))
+                             '    open spec fn configured(&self, cfg: (Set<PathV>, Set<PathV>)) -> bool { %s }\n\n'
+                             '    ' % (lookup, wf, conf))
         gg.add_param(W)
         gg.add_arg(ty + ' :: get', TW)
         tt = u.under_contract(im.sub(['fn touch']), ['C13', 'C15', 'C09', 'C05', 'C18', 'C16', 'C06', 'C20'])
@@ -137,6 +144,11 @@ pub type Levels = Seq<Box<dyn ReadSide>>;
 /// Every level is a well-formed handle.
 pub open spec fn levels_wf(stack: Levels) -> bool {
     forall|i: int| 0 <= i < stack.len() ==> (#[trigger] stack[i]).level_wf()
+}
+
+/// Every level's directories are configured ones.
+pub open spec fn levels_configured(stack: Levels, cfg: (Set<PathV>, Set<PathV>)) -> bool {
+    forall|i: int| 0 <= i < stack.len() ==> (#[trigger] stack[i]).configured(cfg)
 }
 
 /// C13: `idx` is the first level (in registration order) that holds a copy, and that copy is `ino`.
@@ -179,6 +191,10 @@ impl ReadOnlyCache {
              '&& (%s.is_some() ==> later_copies_accepted(%s, old(w).files, key, %s.unwrap(), r.unwrap().unwrap().ino(), idx, %s.len() as int))' % (stack, checker, checker, stack, checker, stack)),
             ('C13 C05 C18:a-miss-means-no-level-holds-a-copy',
              'r.is_ok() && r.unwrap().is_none() ==> forall|j: int| 0 <= j < %s.len() ==> (#[trigger] %s[j]).lookup(old(w).files, key).is_none()' % (stack, stack)),
+            ('C16:success-on-a-non-empty-stack-means-the-name-is-a-valid-key', 'r.is_ok() && %s.len() > 0 ==> valid_key(str_bytes(key.name))' % stack),
+            ('C01:a-hit-holds-bytes-some-writer-supplied-for-exactly-this-key',
+             'r.is_ok() && r.unwrap().is_some() && levels_configured(%s, old(w).cfg()) ==> final(w).inodes.contains_key(r.unwrap().unwrap().ino()) '
+             '&& final(w).supplied.contains((str_bytes(key.name), final(w).inodes[r.unwrap().unwrap().ino()].content))' % stack),
             ('C18 C05 C14:error-is-an-invalid-name-a-real-fault-or-a-rejected-copy',
              'r.is_err() ==> %s || final(w).hard_faults > old(w).hard_faults || (%s.is_some() && exists|i: int, j: int| 0 <= i < j < %s.len() '
              '&& (#[trigger] %s[i]).lookup(old(w).files, key).is_some() && (#[trigger] %s[j]).lookup(old(w).files, key).is_some() '
@@ -217,7 +233,9 @@ impl ReadOnlyCache {
         ('C13 C14 C19:the-candidate-is-the-first-copy-accepted-against-every-later-copy-seen-so-far',
          'ret.is_some() ==> checker.is_some() && 0 <= idx < k && first_copy(stack@, old(w).files, key, idx, ret.unwrap().ino()) && !ret.unwrap().can_write() && ret.unwrap().offset() == 0 '
          '&& later_copies_accepted(stack@, old(w).files, key, checker.unwrap(), ret.unwrap().ino(), idx, k)'),
-        ('C16:an-invalid-name-never-gets-past-the-first-level', 'k > 0 ==> first_byte_ok(str_bytes(key.name))'),
+        ('C16:an-invalid-name-never-gets-past-the-first-level', 'k > 0 ==> first_byte_ok(str_bytes(key.name)) && valid_key(str_bytes(key.name))'),
+        ('C01:the-candidate-holds-bytes-supplied-for-this-key',
+         'ret.is_some() && levels_configured(stack@, old(w).cfg()) ==> w.inodes.contains_key(ret.unwrap().ino()) && w.supplied.contains((str_bytes(key.name), w.inodes[ret.unwrap().ino()].content))'),
         ('C06 C20:at-most-two-opens-and-seven-calls-per-level', 'w.steps <= old(w).steps + 7 * k && w.opens <= old(w).opens + 2 * k'),
     ], ensures=[('', 'k == stack@.len()')], decreases='stack@.len() - k')
     d.insert_after('let mut ret', ': Option<File>')
@@ -304,7 +322,7 @@ def weave_stack(u, u4):
     g = t.sub(['fn get'])
     g.insert_before_tok(g.fn_kw(), WRITE_SPECS.strip() + '\n\n    ')
     g.add_param(W)
-    g.contract(requires=[('', 'old(w).inv() && self.level_wf()')], ensures=level_get_ensures('self.lookup(old(w).files, key)'))
+    g.contract(requires=[('', 'old(w).inv() && self.level_wf()')], ensures=level_get_ensures('self.lookup(old(w).files, key)', 'self.rw(old(w).cfg())'))
     th = t.sub(['fn touch'])
     th.add_param(W)
     th.contract(requires=[('', 'old(w).inv() && self.level_wf()')], ensures=level_touch_ensures('self.lookup(old(w).files, key)'))
@@ -478,6 +496,10 @@ pub open spec fn read_copies_accepted(rs: ReadOnlyCache, links: Map<PathV, Inode
             ('C13 C05 C18:a-miss-means-no-copy-anywhere',
              'r.is_ok() && r.unwrap().is_none() ==> no_read_copy(*read_side, old(w).files, key) && (write_side.is_some() ==> %s.lookup(old(w).files, key).is_none())' % WS),
             ('C06 C20:at-most-two-opens-per-directory', 'final(w).opens <= old(w).opens + 2 + 2 * read_side.levels().len()'),
+            ('C16:success-means-the-name-is-a-valid-key', 'r.is_ok() && (write_side.is_some() || read_side.levels().len() > 0) ==> valid_key(str_bytes(key.name))'),
+            ('C01:a-hit-holds-bytes-some-writer-supplied-for-exactly-this-key',
+             'r.is_ok() && r.unwrap().is_some() && (write_side.is_some() ==> %s.rw(old(w).cfg())) && levels_configured(read_side.levels(), old(w).cfg()) ==> '
+             'final(w).inodes.contains_key(r.unwrap().unwrap().ino()) && final(w).supplied.contains((str_bytes(key.name), final(w).inodes[r.unwrap().unwrap().ino()].content))' % WS),
         ])
     d.insert_after('if let Some ( write ) = write_side {',
                    '\n                let ghost w0 = *w;\n                proof { assert forall|a: World, b: World| #[trigger] a.atime_only(w0) && #[trigger] b.atime_only(a) implies b.atime_only(w0) by { lemma_atime_only_trans(w0, a, b); } }')
